@@ -258,14 +258,19 @@ fn h_multi(p: usize, seed: u64, n: u64) -> Dump {
         0 => MultiNodeSimulation::new(nodes, seed),
         1 => MultiNodeSimulation::new_without_anti_entropy(nodes, seed),
         2 => MultiNodeSimulation::new_partitioned(nodes, 2, seed),
+        4 => MultiNodeSimulation::new_without_anti_entropy(nodes, seed),
         _ => MultiNodeSimulation::new(nodes, seed).with_packet_loss(0.2).with_message_delay(1, 50),
     };
     let keys = ["k0", "k1", "k2", "k3", "k4", "k5"];
+    // preset 4: write bursts over 200 distinct keys with gossip rounds far apart, so that a node's outbox
+    // (bounded at 100 deltas) overflows between two rounds
+    let burst = p == 4;
     for i in 0..n {
         let node = g.below(nodes as u64) as usize;
+        let node = if burst && g.below(4) > 0 { 0 } else { node };
         let client = g.below(4) as usize;
-        let key = keys[g.below(keys.len() as u64) as usize].to_string();
-        match g.below(16) {
+        let key = if burst { format!("b{}", g.below(200)) } else { keys[g.below(keys.len() as u64) as usize].to_string() };
+        match if burst { g.below(7) } else { g.below(16) } {
             0..=5 => { sim.execute(client, node, Command::set(key, SDS::from_str(&format!("v{}", i)))); }
             6..=8 => { sim.execute(client, node, Command::Get(key)); }
             9 => { sim.execute(client, node, Command::del(key)); }
@@ -275,7 +280,7 @@ fn h_multi(p: usize, seed: u64, n: u64) -> Dump {
             _ => {}
         }
         sim.advance_time_ms(1 + g.below(20));
-        if g.below(2) == 0 { sim.gossip_round(); }
+        if g.below(if burst { 160 } else { 2 }) == 0 { sim.gossip_round(); }
         // the in-flight queue is ordered and public: its order is part of the trace
         d.trace(format!("step {} t={} ops={} in_flight={:?} clocks={:?} syncs={}", i, sim.current_time.0, sim.history.len(),
             sim.message_queue.iter().map(|m| (m.from, m.to, m.delivery_time.0, m.deltas.len())).collect::<Vec<_>>(),
@@ -369,6 +374,7 @@ fn h_redis_dst(p: usize, seed: u64, n: u64) -> Dump {
         0 => RedisDSTSimulation::new(seed, nodes),
         1 => RedisDSTSimulation::new_uniform(seed, nodes, 20),
         2 => RedisDSTSimulation::new(seed, nodes).with_faults(FaultConfig::calm()),
+        4 => RedisDSTSimulation::with_key_distribution(seed, nodes, redis_sim::simulator::dst_integration::KeyDistribution::Zipfian { num_keys: 1000, skew: 1.5 }),
         _ => RedisDSTSimulation::new(seed, nodes).with_faults(FaultConfig::chaos()),
     };
     let r = sim.run(n as usize).clone();
@@ -551,10 +557,10 @@ pub const HARNESSES: &[HarnessDef] = &[
     HarnessDef { name: "crdt-pncounter", probe: "harness/crdt-pncounter", ambient_probe: "ambient_buggify_dependent/crdt-pncounter", presets: &["calm", "moderate", "chaos", "new"], sizes: [20, 100, 500], key_by_preset: false, run: h_pncounter },
     HarnessDef { name: "crdt-orset", probe: "harness/crdt-orset", ambient_probe: "ambient_buggify_dependent/crdt-orset", presets: &["calm", "moderate", "chaos", "new"], sizes: [20, 100, 500], key_by_preset: false, run: h_orset },
     HarnessDef { name: "crdt-vectorclock", probe: "harness/crdt-vectorclock", ambient_probe: "ambient_buggify_dependent/crdt-vectorclock", presets: &["calm", "moderate", "chaos", "new"], sizes: [20, 100, 500], key_by_preset: false, run: h_vclock },
-    HarnessDef { name: "multi-node", probe: "harness/multi-node", ambient_probe: "ambient_buggify_dependent/multi-node", presets: &["broadcast", "no-anti-entropy", "partitioned-rf2", "lossy"], sizes: [20, 80, 300], key_by_preset: true, run: h_multi },
+    HarnessDef { name: "multi-node", probe: "harness/multi-node", ambient_probe: "ambient_buggify_dependent/multi-node", presets: &["broadcast", "no-anti-entropy", "partitioned-rf2", "lossy", "no-anti-entropy-write-bursts"], sizes: [20, 80, 300], key_by_preset: true, run: h_multi },
     HarnessDef { name: "partition", probe: "harness/partition", ambient_probe: "ambient_buggify_dependent/partition", presets: &["asymmetric", "isolate-node", "split-brain", "ring", "batch"], sizes: [4, 12, 40], key_by_preset: true, run: h_partition },
     HarnessDef { name: "dst", probe: "harness/dst", ambient_probe: "ambient_buggify_dependent/dst", presets: &["new", "calm", "chaos"], sizes: [50, 300, 1500], key_by_preset: false, run: h_dst },
-    HarnessDef { name: "redis-dst", probe: "harness/redis-dst", ambient_probe: "ambient_buggify_dependent/redis-dst", presets: &["zipfian", "uniform", "faults-calm", "faults-chaos"], sizes: [20, 100, 500], key_by_preset: false, run: h_redis_dst },
+    HarnessDef { name: "redis-dst", probe: "harness/redis-dst", ambient_probe: "ambient_buggify_dependent/redis-dst", presets: &["zipfian", "uniform", "faults-calm", "faults-chaos", "zipfian-skew-1.5"], sizes: [20, 100, 500], key_by_preset: false, run: h_redis_dst },
     HarnessDef { name: "streaming", probe: "harness/streaming", ambient_probe: "ambient_buggify_dependent/streaming", presets: &["new", "calm", "moderate", "chaos"], sizes: [30, 150, 600], key_by_preset: false, run: h_streaming },
     HarnessDef { name: "compaction", probe: "harness/compaction", ambient_probe: "ambient_buggify_dependent/compaction", presets: &["new", "calm", "aggressive", "chaos"], sizes: [30, 150, 600], key_by_preset: false, run: h_compaction },
     HarnessDef { name: "wal", probe: "harness/wal", ambient_probe: "ambient_buggify_dependent/wal", presets: &["default", "baseline", "crash_only", "chaos", "no-fsync"], sizes: [10, 100, 400], key_by_preset: false, run: h_wal },
@@ -744,6 +750,13 @@ impl Property for C20 {
         let mut limit = 5usize; // sections >= limit are explained by a difference already found
         let mut found: Option<(usize, String)> = None;
         for k in 0..repeats {
+            // every other repeat is preceded by a different configuration of the same harness on this thread
+            // (what an earlier run left behind - memo tables, thread-locals - must not leak into this one)
+            if k % 2 == 1 && def.presets.len() > 1 {
+                let other = Case { h, preset: (preset + 1 + (k as usize / 2) % (def.presets.len() - 1)) % def.presets.len(), seed: seed ^ 0x5a5a, size: def.sizes[0] };
+                let _ = execute(&other, Some(T0_MS), false);
+                rep.fault("other_configuration_ran_first_on_this_thread");
+            }
             shift_ambient_state(seed.wrapping_add(k));
             rep.fault("hasher_and_allocator_state_shifted");
             if skew > 0 { rep.fault("production_clock_skewed"); }
